@@ -19,6 +19,9 @@ ASSUME_COMMON = [
     'sampling: a clean batch is evidence, not proof',
 ]
 
+# Families whose schedules must not depend on PYTHONHASHSEED (no string-hashed sets).
+HASHSEED_INDEPENDENT = ['c04:queue', 'c05:fail', 'c05:stop', 'c05:timeout', 'c13:par', 'c03:strategy']
+
 CHECKS = {
     'C04': {
         'families': [['c04:queue', 1.0]],
